@@ -404,3 +404,34 @@ func (r *Run) Path(id int32) []string { return r.bfs.Path(id) }
 
 // States returns the number of states found.
 func (r *Run) States() int64 { return r.bfs.States }
+
+// PlayOut drives one real hand of configuration c to GameClosed, always taking the most passive
+// offered action (check, else call, else pass, else fold), and returns the final state.
+func PlayOut(c *Config) (*pf.GameState, error) {
+	g, err := c.NewStarted()
+	if err != nil {
+		return nil, err
+	}
+	for step := 0; step < 500; step++ {
+		gs := g.GetState()
+		if gs.Status.CurrentEvent == "GameClosed" {
+			return gs, nil
+		}
+		ops := Alphabet(c, gs)
+		if len(ops) == 0 {
+			return gs, fmt.Errorf("no step available at %s", gs.Status.CurrentEvent)
+		}
+		pick := ops[0]
+		rank := map[string]int{"Check": 0, "Call": 1, "Pass": 2, "Fold": 3}
+		best := 99
+		for _, o := range ops {
+			if r, ok := rank[o.Kind]; ok && r < best {
+				best, pick = r, o
+			}
+		}
+		if err, p := Apply(g, pick); err != nil || p != "" {
+			return gs, fmt.Errorf("%s failed: %v %s", pick.Label(), err, p)
+		}
+	}
+	return g.GetState(), fmt.Errorf("hand did not close")
+}
